@@ -4,11 +4,12 @@ From V Require Import JpegLS.JlsProofsParams JpegLS.JlsProofsGolomb JpegLS.JlsPr
                       JpegLS.JlsProofsRun JpegLS.JlsProofsNear0 JpegLS.JlsProofsInterrupt JpegLS.JlsProofsLine
                       JpegLS.JlsProofsStream JpegLS.JlsProofsTotal.
 
-(* Whole image, byte level: for every geometry up to 65535 x 65535, 1 or 3 components, precision
+(* Whole image, byte level: for every geometry (the encoder accepts up to 65535 x 65535), 1 or 3 components, precision
    2..16 and samples below 2^P, the decoder model applied to the encoder model's output returns
    the input samples (in their container), width, height, component count, precision. *)
 Theorem C03_roundtrip : forall w h comps P pixelData stream lim,
-  w <= 65535 -> h <= 65535 -> w * h * comps <= lim ->
+  w * h * comps <= lim ->
+  zlen (pixelsToIntegers P pixelData) = w * h * comps ->
   Forall (in_range P) (pixelsToIntegers P pixelData) ->
   jls_encode w h comps P pixelData = Ok stream ->
   jls_decode lim stream =
@@ -18,8 +19,8 @@ Print Assumptions C03_roundtrip.
 
 (* the encoder does not fail on any well-formed call (the round trip is not vacuous) *)
 Theorem C03_encode_total : forall w h comps P pixelData,
-  1 <= w -> 1 <= h -> comps = 1 \/ comps = 3 -> 2 <= P <= 16 ->
-  zlen (pixelsToIntegers P pixelData) = w * h * comps ->
+  1 <= w <= 65535 -> 1 <= h <= 65535 -> comps = 1 \/ comps = 3 -> 2 <= P <= 16 ->
+  w * h * comps * Z.quot (P + 7) 8 <= zlen pixelData ->
   exists stream, jls_encode w h comps P pixelData = Ok stream.
 Proof. intros. apply encode_total; try assumption; lia. Qed.
 Print Assumptions C03_encode_total.
